@@ -1,5 +1,6 @@
 import ScriggoV.Model.Order
 import ScriggoV.Model.DeclOrder
+import ScriggoV.Model.History
 import ScriggoV.Gen.MapRanges
 import ScriggoV.Gen.MapRangeCalls
 import ScriggoV.Spec.MapRangeClasses
@@ -243,6 +244,59 @@ theorem typeInfo_field_writers_reviewed :
     Gen.CompilerGlobals.fieldWrites = [("typeInfo", typeInfoWriters)] := by
   decide +kernel
 
+/-! ### history independence: which state makes the history visible
+
+`Model/History.lean`: builds that change only the components `W` of the surviving state and do
+not read them give, after any history, what they give in a fresh process. The components a
+build of this compiler can change are (regenerated) the package-level variables some function
+writes directly — a cache, registry or pool: `containers`, `writtenVars` — and those from which a
+written struct is reachable by pointer (`pointerReach`). -/
+
+/-- the build-surviving state the compiler can write: the names of its components -/
+def writtenState : List String :=
+  Gen.CompilerGlobals.writtenVars ++ Gen.CompilerGlobals.pointerReach.map (·.1)
+
+/-- **No package-level container is written by a function of the compiler** (map, slice, chan,
+sync.Map, sync.Pool; assignment, index assignment, delete, append, method with pointer receiver):
+a cache keyed by a Go value that outlives the build — `var nativeFunctions sync.Map` filled by
+`predefFunc` — breaks this, and is named by it. -/
+theorem no_container_written_by_builds :
+    (Gen.CompilerGlobals.containers.filter (fun c => c.writers != [])).map (fun c => (c.name, c.kind)) = [] := by
+  decide +kernel
+
+/-- **The state a build can leave behind is the reviewed one**: nothing written directly, and the
+two variables reaching `*typeInfo` values (known findings history-universe-bool*). A new
+component is an undischarged obligation that names it. -/
+theorem written_state_reviewed : writtenState = ["universe", "untypedBoolTypeInfo"] := by
+  decide +kernel
+
+/-- **History independence**, as far as it holds today: for every build function that changes at
+most the reviewed written state and whose result does not read it, the result of building `i`
+after any history is the result of building `i` in a fresh process. -/
+theorem history_independence_partial {ι ο : Type} (build : History.State → ι → ο × History.State)
+    (fr : History.Frame writtenState build) (bl : History.Blind writtenState build)
+    (s0 : History.State) (hist : List ι) (i : ι) :
+    (build (History.after build s0 hist) i).1 = (build s0 i).1 :=
+  History.history_independent_of_frame writtenState build fr bl s0 hist i
+
+/-- **Full statement**: the compiler has no build-surviving writable state, so that (by
+`History.history_independent_of_no_written_state`) the result of a build is a function of its
+inputs alone. False today: `written_state_reviewed`. -/
+def NoBuildSurvivingWritableState : Prop := writtenState = []
+
+theorem history_independent_if_no_written_state (h : NoBuildSurvivingWritableState)
+    {ι ο : Type} (build : History.State → ι → ο × History.State)
+    (fr : History.Frame writtenState build) (s0 : History.State) (hist : List ι) (i : ι) :
+    (build (History.after build s0 hist) i).1 = (build s0 i).1 := by
+  unfold NoBuildSurvivingWritableState at h
+  rw [h] at fr
+  exact History.history_independent_of_no_written_state build fr s0 hist i
+
+theorem not_noBuildSurvivingWritableState : ¬ NoBuildSurvivingWritableState := by
+  unfold NoBuildSurvivingWritableState
+  rw [written_state_reviewed]
+  decide
+
 open ScriggoV.Spec.CompilerGlobalsReview in
 /-- **Full statement**: no reviewed variable carries state from one build to the next. False
 today: two hold `*typeInfo` values that builds mutate (finding `history-universe-bool`). -/
@@ -270,6 +324,9 @@ example : UniqueResult (fun e : Nat × Nat => e.1 == 2) (fun e => e.2) [(1, 10),
   rw [this]
 example : [(1, 10), (2, 5), (3, 7)].foldl (stepArgMin (fun _ => true) (fun e => e.2)) none = some (2, 5) := by
   decide
+/-- a build that does not touch the state satisfies the frame condition for any `W` -/
+example : History.Frame writtenState (fun (s : History.State) (i : Nat) => (i + s "x", s)) :=
+  fun _ _ _ _ => rfl
 /-- a forward reference is sorted: `var a = b`, `var b = c`, `const c = 1` -/
 example : (DeclOrder.sortDeclarations
     (DeclOrder.byId [(⟨0, .var, "a"⟩, ["b"]), (⟨1, .var, "b"⟩, ["c"]), (⟨2, .const, "c"⟩, [])])
